@@ -1,0 +1,21 @@
+//go:build verif
+
+package shaping
+
+import "github.com/go-text/typesetting/harfbuzz"
+
+// Verification hook (property C12, conversion part of Shape).
+//
+// VerifShapeRaw runs (*HarfbuzzShaper).Shape itself and returns, next to its Output, the objects the
+// conversion loop of Shape has just read: the shaper's buffer (Info and Pos as the engine left them;
+// Shape does not touch the buffer after Buffer.Shape) and the cached harfbuzz font carrying the scale
+// Shape set.  Nothing is copied or recomputed here.  The font is nil when the shaper's font cache
+// does not retain it (SetFontCacheSize(0), the zero value): callers set a cache size >= 1.
+func (t *HarfbuzzShaper) VerifShapeRaw(input Input) (Output, *harfbuzz.Buffer, *harfbuzz.Font) {
+	out := t.Shape(input)
+	var font *harfbuzz.Font
+	if e, ok := t.fonts.m[input.Face]; ok {
+		font = e.v
+	}
+	return out, t.buf, font
+}
